@@ -1296,6 +1296,97 @@ def rule_r6(ctx):
         raise AnalysisBroken("only %d local acquisitions found" % n)
 
 
+# ---------------------------------------------------------------------------
+# R15: the teardown that a failed nng_init runs tolerates what was never created
+
+
+def rule_r15(ctx):
+    from .. import guards as G
+    r = ctx.rule("C20.R15", "T12", "a failing step of nng_init is undone without touching what was never created: either nng_init unwinds "
+                 "exactly the steps that had succeeded (each X_sys_init that succeeded gets its X_sys_fini, no later one does), or -- "
+                 "if it calls the general nng_fini -- every function nng_fini reaches tests the global objects it is handed "
+                 "before dereferencing them; otherwise an allocation failure during nng_init is a crash instead of NNG_ENOMEM",
+                 floor=3)
+    prog = ctx.prog
+    init = prog.need("nng_init", "core/init.c")
+    root = prog.need("nng_fini", "core/init.c")
+
+    def fini_of(name):
+        if name.endswith("_sys_init"):
+            return name[:-len("_sys_init")] + "_sys_fini"
+        if name.endswith("_init"):
+            return name[:-len("_init")] + "_fini"
+        return None
+    steps = []
+    for c in init.calls():
+        fnm = c.node.get("fn")
+        if fnm and fini_of(fnm) and prog.resolve(init, fini_of(fnm)) is not None and init.value_edges(c):
+            steps.append(c)
+    if len(steps) < 3:
+        raise AnalysisBroken("only %d may-fail initialisation steps recognised in nng_init" % len(steps))
+    steps.sort(key=lambda c: c.line)
+    general = [c for c in init.calls("nng_fini")]
+    n = 0
+    if not general:
+        for i, c in enumerate(steps):
+            for b, (nz, z) in init.value_edges(c).items():
+                tgt = init.blocks[b].succs[nz]
+                if tgt is None:
+                    continue
+                reach = init.reach((tgt, 0))
+                called = {x.node.get("fn") for x in init.calls() if (x.b, x.i) in reach}
+                n += 1
+                missing = [fini_of(s_.node["fn"]) for s_ in steps[:i] if fini_of(s_.node["fn"]) not in called]
+                extra = [fini_of(s_.node["fn"]) for s_ in steps[i:] if fini_of(s_.node["fn"]) in called]
+                if missing or extra:
+                    ctx.fail(r, init, "failure of %s: %s" % (c.node["fn"], "; ".join(
+                        (["%s not undone" % m[:-len("_fini")] for m in missing]) + ["%s finalized though never initialised" % e for e in extra])), c.line,
+                        "when %s fails at line %s, nng_init %s" % (c.node["fn"], c.line, "; ".join(
+                            ["does not call %s for the step that had succeeded" % m for m in missing] +
+                            ["calls %s for a step that did not succeed (it runs on objects that were never created)" % e for e in extra])))
+                else:
+                    r.ob(init, "failure of %s: exactly the earlier steps are undone" % c.node["fn"])
+        return
+    seen, work = [], [root]
+    while work:
+        f = work.pop()
+        if f in seen or f.cfg_failed:
+            continue
+        seen.append(f)
+        for c in f.calls():
+            h = prog.resolve(f, c.node["fn"]) if c.node.get("fn") else None
+            if h is not None and h not in seen and len(seen) < 400:
+                work.append(h)
+    for f in seen:
+        if not (f.name.endswith(("_sys_fini", "_sys_drain", "_sys_stop")) or f is root):
+            continue
+        for c in f.calls():
+            h = prog.resolve(f, c.node["fn"]) if c.node.get("fn") else None
+            if h is None or h.cfg_failed:
+                continue
+            for i, a in enumerate(c.node["args"]):
+                a = f.expand(a) if a is not None else None
+                if a is None or a.get("k") != "var" or a.get("vk") not in ("global", "slocal") or "*" not in (a.get("t") or ""):
+                    continue
+                if i >= len(h.params):
+                    continue
+                par = h.params[i]["n"]
+                derefs = [t for t in h.sites() if t.node.get("k") == "mem" and t.node.get("arrow") and
+                          (lambda b: b is not None and b.get("k") == "var" and b["n"] == par)(h.expand(t.node.get("b")))]
+                n += 1
+                nonnull = G.nz_edges(h, lambda m: m.get("k") == "var" and m["n"] == par)
+                bad = [t for t in derefs if not (nonnull and G.dominated(h, (t.b, t.i), nonnull))]
+                if bad:
+                    ctx.fail(r, h, "%s dereferences %s, NULL when nng_init failed early" % (h.name, par), bad[0].line,
+                             "nng_init calls nng_fini when a step fails; %s passes the global %s to %s (line %s) on that path; the "
+                             "global is still NULL when the failing step came before its creation, and %s dereferences the "
+                             "parameter at line %s without testing it" % (f.name, a["n"], h.name, c.line, h.name, bad[0].line))
+                else:
+                    r.ob(h, "%s(%s) tolerates NULL" % (h.name, a["n"]))
+    if n < 3:
+        raise AnalysisBroken("only %d global objects handed to functions on the nng_fini path" % n)
+
+
 def run(ctx):
     ctx.guard(rule_r1)
     ctx.guard(rule_r2)
@@ -1310,3 +1401,4 @@ def run(ctx):
     ctx.guard(rule_r13)
     ctx.guard(rule_r14)
     ctx.guard(rule_r6)
+    ctx.guard(rule_r15)
